@@ -89,7 +89,10 @@ def gen_output(rng, ndim=None, ncpu=None, levelmin=None, levelmax=None, nboundar
         base = ["density"] + ["velocity_" + c for c in "xyz"[:ndim]]
         extra = r.sample(["pressure", "thermal_pressure", "passive_scalar_1", "temperature", "internal_energy",
                           "radiative_energy_1", "B_x_left", "B_y_left", "B_z_left", "B_x_right", "B_y_right", "B_z_right",
-                          "metallicity"], r.randint(0, 6))
+                          "metallicity",
+                          # names without an entry of their own that merely *begin* with a key of the units library (x, y, z,
+                          # density, pressure, temperature, mass): they take the default (dimensionless) unit
+                          "xHII", "yHe", "zeta", "density_old", "pressure_cr", "temperature_rad", "mass_fraction"], r.randint(0, 6))
         if not exact:
             pass
         else:
@@ -97,6 +100,9 @@ def gen_output(rng, ndim=None, ncpu=None, levelmin=None, levelmax=None, nboundar
         hydro_vars = base + extra
         if r.random() < 0.2:
             hydro_vars = ["density", "pressure"]
+        if r.random() < 0.25:
+            # a descriptor may declare other types than doubles (osyris reads every variable with its own type): an int32 flag
+            hydro_vars.insert(r.randint(1, len(hydro_vars)), "cell_flag:i")
     with_grav = r.random() < 0.5 if with_grav is None else with_grav
     with_rt = r.random() < 0.3 if with_rt is None else with_rt
     rt_vars = ["photon_density_1"] + ["photon_flux_1_" + c for c in "xyz"[:ndim]] if with_rt else []
@@ -104,8 +110,13 @@ def gen_output(rng, ndim=None, ncpu=None, levelmin=None, levelmax=None, nboundar
         rt_vars.append("photon_density_2")
     ngrav = 1 + ndim
 
+    hydro_types = ["i" if v.endswith(":i") else "d" for v in hydro_vars]
+    hydro_vars = [v.split(":")[0] for v in hydro_vars]
+
     def cellval(kind, gid, ind, iv):
         base = {"hydro": 0, "grav": 3, "rt": 5}[kind]
+        if kind == "hydro" and hydro_types[iv] == "i":
+            return Fraction((gid * 8 + ind) * 16 + iv + 1)      # integers for integer-typed variables
         return Fraction((gid * 8 + ind) * 16 + iv + 1, 4) + base * 4096
 
     for o in octs:
@@ -131,7 +142,7 @@ def gen_output(rng, ndim=None, ncpu=None, levelmin=None, levelmax=None, nboundar
         "noutput": noutput or r.randint(1, 5), "keyb": keyb or r.choice([8, 16]), "time": Fraction(r.randint(0, 40), 8),
         "ordering": "hilbert", "bound_keys": [Fraction((8 ** (levelmax + 1)) * c // ncpu) for c in range(ncpu + 1)],
         "octs": octs, "files": files, "ghost_poison": Fraction(700000),
-        "hydro_vars": [[v, "d"] for v in hydro_vars], "rt_vars": [[v, "d"] for v in rt_vars], "has_grav": with_grav,
+        "hydro_vars": [[v, t] for v, t in zip(hydro_vars, hydro_types)], "rt_vars": [[v, "d"] for v in rt_vars], "has_grav": with_grav,
         "gamma": Fraction(7, 5),
     }
     with_part = r.random() < 0.5 if with_part is None else with_part
@@ -250,9 +261,10 @@ def var_records(out, cpu, kind):
             if nc == 0:
                 continue
             poison = 0 if d == cpu else out["ghost_poison"]
+            types = [t for _, t in out["hydro_vars"]] if kind == "hydro" else ["d"] * nvar
             for ind in range(tt):
                 for iv in range(nvar):
-                    R.append(rec("d", [o[kind][ind][iv] + poison for o in lst]))
+                    R.append(rec(types[iv], [o[kind][ind][iv] + poison for o in lst]))
     return R
 
 
